@@ -80,3 +80,12 @@ Example C20_example :
   s_events s1 = {| n_erred := 2; n_added := 2; n_updated := 0; n_passed := 0 |} /\
   length (s_skipped s1) = 1.
 Proof. vm_compute. split; reflexivity. Qed.
+
+(* non-vacuity: every theorem of this file that has hypotheses has a concrete, non-trivial instance meeting ALL of them
+   (lemmas <Theorem>_witness / <Theorem>_applied in Proofs/WitnessesP.v); a representative one is restated here *)
+From Snaps Require Import Proofs.WitnessesP.
+Example C20_witnesses :
+  Forall api_op w20_ops /\ ~ In ONewProcess w20_ops /\ items_ok w20_d /\
+  cr_obsolete_files w20_r = w20_obs_files /\ cr_obsolete_tests w20_r = w20_obs_tests /\
+  nth_error (s_cfgs w20_s) w20_hd = Some w20_c1.
+Proof. exact C20_witnesses_all. Qed.
